@@ -1,6 +1,6 @@
 (* Props_C11.v — C11: vertical structure is hydrostatic, ordered and one value per layer. *)
-From Coq Require Import Reals List Lra Sorting.Sorted.
-From TV Require Import Num ListNum ListNumR Model_C11 Proofs_C11.
+From Coq Require Import Reals List Lra Lia Sorting.Sorted.
+From TV Require Import Num ListNum ListNumR Model_C11 Proofs_C11 Model_C11a Proofs_C11a.
 From TV Require Import NumIv Reflect.
 Import ListNotations.
 Local Open Scope R_scope.
@@ -76,3 +76,31 @@ Theorem C11_layers_enclosed : forall GMI GM RI R0 kI k,
   /\ encloses (snd (@layers _ IvTNum GMI RI kI zI PjI PnI TsI msI)) (snd (@layers R RTNum GM R0 k z Pj PnR TsR msR)).
 Proof. exact layers_transfer. Qed.
 Print Assumptions C11_layers_enclosed.
+
+(* ---- array pressure profile (ArrayPressureProfile.compute_pressure_profile), in log10 space ---------------------
+   n layer pressures give n+1 levels; for strictly decreasing layer pressures whose neighbouring log-spacings differ by
+   less than a factor three, every layer lies strictly between its two levels and the levels decrease strictly. The
+   factor is sharp for the centred differences the code uses: the proof needs exactly  upper spacing < 3 x lower. *)
+Theorem C11_array_levels_count : forall (l : list R), length (@array_loglevels R RNum l) = S (length l).
+Proof. exact array_levels_length. Qed.
+Print Assumptions C11_array_levels_count.
+
+Theorem C11_array_levels_bracket : forall (l : list R), (2 <= length l)%nat -> decreasing l -> spacing3 l ->
+  forall i, (i < length l)%nat ->
+  nth (S i) (@array_loglevels R RNum l) 0 < @nth_d R RNum l i < nth i (@array_loglevels R RNum l) 0.
+Proof. intros l Hn Hd Hs i Hi. rewrite !array_levels_nth by lia. apply array_levels_bracket; assumption. Qed.
+Print Assumptions C11_array_levels_bracket.
+
+Theorem C11_array_levels_decreasing : forall (l : list R), (2 <= length l)%nat -> decreasing l -> spacing3 l ->
+  forall i, (i < length l)%nat ->
+  nth (S i) (@array_loglevels R RNum l) 0 < nth i (@array_loglevels R RNum l) 0.
+Proof. intros l Hn Hd Hs i Hi. rewrite !array_levels_nth by lia. apply array_levels_decreasing; assumption. Qed.
+Print Assumptions C11_array_levels_decreasing.
+
+(* non-vacuity: three layers with spacings 1 and 2 *)
+Example C11_array_premises_hold : decreasing [6; 5; 3] /\ spacing3 [6; 5; 3].
+Proof.
+  split; intros i Hi; cbn [length] in Hi.
+  - destruct i as [|[|i]]; unfold nth_d; cbn [nth]; try lra; lia.
+  - destruct i as [|i]; unfold nth_d; cbn [nth]; try lra; lia.
+Qed.
